@@ -84,3 +84,8 @@ Definition extract_with_deindent (content : str) (s e : nat) : extract :=
   let sl := byte_slice content s e in
   if negb (has_newline sl) then SingleLine sl
   else MultiLine sl (get_indent_at_offset (firstn s content)).
+
+(* deindent_slice + formatted_slice (used by MetaVarEnv::insert_transformation) *)
+Definition formatted_slice (content : str) (start : nat) (slice : str) : str :=
+  if negb (has_newline slice) then slice
+  else indent_lines 0 (MultiLine slice (get_indent_at_offset (firstn start content))).
